@@ -411,7 +411,9 @@ def run(chk):
                 nres += 1 if c03_slicepath.add_result_case(chk, opv, name, batch, op, dense, idx) else 0
         if lean.enabled:
             c03_slicepath.add_aligned_cases(chk, lean, name, batch, op, dense, chk.rng)
+        c03_slicepath.add_toomany_cases(chk, opv, lean, name, batch, op, dense, chk.rng)
         lean.add_class_cases(name, meta, op, dense, chk.rng)
+    c03_slicepath.diag_pair_sweep(chk, opv, C.Gen(chk.rng), BATCHES)
     lean.add_helper_cases(chk.rng)
     chk.count("opv:structural-nodes", opv.enc.structural) if opv.enc.structural else None
     chk.count("opv:opaque-nodes", opv.enc.opaque) if opv.enc.opaque else None
